@@ -2,7 +2,7 @@
    Only statements: each theorem is closed by [exact lemma], pinned by [Check], followed by
    [Print Assumptions]. *)
 From Coq Require Import List NArith Permutation.
-From EZK Require Import Lib.Bytes Model.C10 Proofs.C10.
+From EZK Require Import Gen.Tables Lib.Bytes Model.C10 Proofs.C10.
 Import ListNotations.
 Open Scope N_scope.
 
@@ -97,3 +97,15 @@ Example C10_example_limit :
   run (entry_new (Some 4294967293)) [mkreq 4294967295 1 false; mkreq 4294967294 2 false]
   = (mkd (Some 4294967295) [], [(4294967294, 2); (4294967295, 1)]).
 Proof. vm_compute. reflexivity. Qed.
+
+(* the backlog is not a place where requests get lost: while the gap is open, a second request carrying a number that
+   is already parked is not intercepted by the dialog layer at all - the table stays as it is, the parked request keeps
+   its place, the newcomer goes on to the following layers and the endpoint's default answer *)
+Theorem C10_backlog_guard : dlg_backlog_no_overwrite = true.
+Proof. reflexivity. Qed.
+
+Theorem C10_parked_not_displaced : forall es cid ft t r k e n x,
+  key_of_request cid ft (Some t) = Some k -> entries_find k es = Some e ->
+  next (e_st e) = Some n -> n < r_cseq r -> bl_lookup (r_cseq r) (backlog (e_st e)) = Some x ->
+  layer_step es (Recv cid ft (Some t) r) = (es, NotIntercepted).
+Proof. intros. eapply parked_not_displaced; eauto. Qed.
